@@ -92,6 +92,7 @@ theorem upsertAccounts_update_exprs (cb : Callbacks) (te : TypeEnv) (env : Env) 
   refine ⟨_, _, _, _, _, _, _, _, _, fun rows => rfl, ?_, ?_, ?_⟩
   · have a1 := lookup_a env (acVals la addrA aaA insA updA mdA fuA) (dbVals addrD mdD fuD insD updD aaD dmD biD) src "first_usage" (.ts fuA) rfl
     have d1 := lookup_d env (acVals la addrA aaA insA updA mdA fuA) (dbVals addrD mdD fuD insD updD aaD dmD biD) src "first_usage" (optTs fuD) rfl
+    rw [evalExpr_call _ _ _ _ _ _ (by decide)]
     simp only [evalExpr, evalExprs, exec_bind, a1, d1, exec_liftR_ok, exec_pure]
     cases fuD with
     | none => simp [evalPureFn, optTs, Value.isNull, leastOpt]
